@@ -207,6 +207,27 @@ def gen_cases(tier, seed, with_chi2=True):
         t = [rnd.choice(T2L + T2) for _ in range(4)]
         add(dict(fam='lm', k='SE2', k2='R2', t1=t[0], r1=rnd.choice(B.C4 + B.PY5), t2=t[1], toff=t[2], roff=rnd.choice(B.C4), tz=t[3]), 2, n)
         n += 1
+    # -- exact identities: the observing pose, the offset, their COMPOSITION, the relative pose or the measurement is exactly the identity
+    #    (that is where shortcuts for "nothing to do" live)
+    from . import design
+    for kind, k2, ident, TT in (('SE2', 'R2', (1, 0, 1), T2), ('SE3', 'R3', (0, 0, 0, 1, 1), T3)):
+        G = design.Grp(kind)
+        d = B.DIM[kind]
+        zero = tuple([0] * d)
+        for _ in range(12 if thorough else 4):
+            p = (tuple(rnd.choice(TT)), tuple(G.rnd(rnd)))
+            pinv = G.rel(p, (zero, ident))
+            pinv = (tuple(pinv[0]), tuple(pinv[1]))
+            t2, tz = rnd.choice(TT), rnd.choice(TT)
+            for t1, r1, toff, roff in ((zero, ident, zero, ident), (p[0], p[1], pinv[0], pinv[1]), (zero, ident, p[0], p[1]), (p[0], p[1], zero, ident)):
+                add(dict(fam='lm', k=kind, k2=k2, t1=t1, r1=r1, t2=t2, toff=toff, roff=roff, tz=tz), d, n)
+                n += 1
+            add(dict(fam='odo', k=kind, t1=p[0], r1=p[1], t2=p[0], r2=p[1], tz=zero, rz=ident), B.CDIM[kind], n)
+            n += 1
+            add(dict(fam='odo', k=kind, t1=zero, r1=ident, t2=t2, r2=tuple(G.rnd(rnd)), tz=tz, rz=tuple(G.rnd(rnd))), B.CDIM[kind], n)
+            n += 1
+            add(dict(fam='odo', k=kind, t1=p[0], r1=p[1], t2=t2, r2=tuple(G.rnd(rnd)), tz=zero, rz=ident), B.CDIM[kind], n)
+            n += 1
     # -- landmark R^n -> R^n with offsets
     for k, TT, nn in (('R2', T2 + T2L, 2), ('R3', T3 + T3L, 3)):
         for _ in range(200 if thorough else 40):
